@@ -743,4 +743,11 @@ theorem lintedTargets_root (recursive : Bool) (pats : List (List Char)) (t : Nod
     lintedTargets recursive pats t [.dir []] = (linted recursive [] pats t).eraseDups := by
   simp [lintedTargets, lintedOne, subtreeAt]
 
+/-- F14e (repaired): `**/a_gen.py` did not match the top-level file of that name, only deeper ones -/
+theorem F14e_witness :
+    matchesPatternOld [nm "a_gen.py"] (Form.anyFile (nm "a_gen.py")).render = false ∧
+    matchesPattern [nm "a_gen.py"] (Form.anyFile (nm "a_gen.py")).render = true ∧
+    matchesPatternOld [nm "sub", nm "a_gen.py"] (Form.anyFile (nm "a_gen.py")).render = true ∧
+    matchesPattern [nm "sub", nm "xa_gen.py"] (Form.anyFile (nm "a_gen.py")).render = false := by decide
+
 end ThaiLintModel.C14
